@@ -95,7 +95,7 @@ class Scheduler:
             if not enabled:
                 # everybody is inside a step / blocked: wait for someone to arrive
                 t0 = time.time()
-                while time.time() - t0 < 2.0:
+                while time.time() - t0 < 8.0:     # generous: a loaded machine must not look like a deadlock
                     if any(w.arrived.is_set() for w in live):
                         break
                     time.sleep(0.002)
